@@ -533,6 +533,35 @@ func init() {
 			}
 		}})
 
+	register(&Rule{ID: "C20.R6", Props: []string{"C20"}, Min: 1, Needs: NeedMain,
+		Doc: "a flush request is never answered by the requester itself: every path through FlushLogger signals the flusher and then waits for its acknowledgement (or the timeout) — an `empty queue` shortcut is wrong because the flusher may hold a dequeued entry it has not written yet",
+		Run: func(r *R) {
+			fl := r.w.Func(roggerPkg, "FlushLogger")
+			if fl == nil {
+				r.AnchorMissing("rogger.FlushLogger")
+				return
+			}
+			isSignal := func(in ssa.Instruction) bool {
+				c := callCommon(in)
+				return c != nil && c.StaticCallee() == nil && !c.IsInvoke() && builtinName(c) == "" && strings.HasSuffix(pathOf(c.Value), "Cancel")
+			}
+			isWait := func(in ssa.Instruction) bool {
+				s, ok := in.(*ssa.Select)
+				if !ok || !s.Blocking {
+					return false
+				}
+				for _, st := range s.States {
+					if c, ok := st.Chan.(*ssa.Call); ok && c.Call.IsInvoke() && c.Call.Method.Name() == "Done" {
+						return true
+					}
+				}
+				return false
+			}
+			noSignal := reachFromEntryAvoiding(fl, isReturn, isSignal)
+			noWait := reachFromEntryAvoiding(fl, isReturn, isWait)
+			r.Check(noSignal == nil && noWait == nil, fname(fl), "always signal, then wait", fl.Pos(), "every path signals the flusher and waits for the acknowledgement", "FlushLogger can return without signalling the flusher / without waiting for its acknowledgement: an entry the flusher has dequeued but not yet written is lost when the process exits")
+		}})
+
 	register(&Rule{ID: "C20.R5", Props: []string{"C20"}, Min: 2, Needs: NeedMain,
 		Doc: "callers: the panic handler calls FlushLogger directly (not deferred — os.Exit runs no defers) before every os.Exit it reaches; the application's Run defers FlushLogger",
 		Run: func(r *R) {
